@@ -77,3 +77,30 @@ UNITS.append(U(name='htp_connp_tx_freed', props=['C10', 'C04', 'C01'], kind='con
                sub='slot recycling removes exactly the leading NULL transactions and lowers the response index by the same count (list stays bounded in streaming mode)',
                assumes=['transaction list capacity <= LCAP (symbolic); real htp_list_array_get/shift/size bodies included',
                         'precondition out_next_tx_index >= list size - documented use: called after each completed transaction']))
+
+# ---- response header bookkeeping (twin of builder-c11's request producer units; contract generated by substitution) -----------------
+R2R = ['htp_parse_response_header_generic', 'htp_table_get', 'htp_table_add', 'htp_log', 'bstr_cmp_c_nocase', 'htp_parse_content_length',
+       'bstr_expand', 'bstr_add_mem_noex', 'bstr_add_noex']
+for _c, _e, _t in (('first', '(g_c11_have_ex == 0)', 'first occurrence of the name'),
+                   ('clen', '(g_c11_have_ex == 1 && g_c11_isclen == 0)', 'name already stored and the name is Content-Length'),
+                   ('merge', '(g_c11_have_ex == 1 && g_c11_isclen != 0)', 'name already stored, any other name')):
+    UNITS.append(U(name='htp_process_response_header_generic_' + _c, props=['C10', 'C02', 'C18', 'C01'], kind='contract', src=['htp_response_generic.c'],
+                   enforce='htp_process_response_header_generic',
+                   replace=['%s/contract_c11_%s' % (f, f) for f in R2R] + ['bstr_free/contract_c11log_bstr_free'], contracts_inc=['c10_resphdr.h'],
+                   harness='void HARNESS(void) { htp_connp_t *c; unsigned char *d; size_t n; htp_process_response_header_generic(c, d, n); CANARY(); }',
+                   defs={'quick': {'C11_VALCAP': 32, 'C11_PRODUCER_CASE': _e}}, min_obl=60,
+                   sub='[case: %s] response header bookkeeping: REPEATED on the stored header, RESPONSE repetition counter <= 64 and +1 only from the third occurrence, beyond the cap the newcomer is dropped (no unbounded merge), '
+                       'Content-Length never merged, other names merged as old ", " new with len\' = len+2+n, parsed name/value released exactly once unless stored' % _t,
+                   assumes=['contract generated from the request twin by substitution; line parser, table, compare, bstr growth and bstr_free replaced by call-logging stubs with arbitrary answers',
+                            'case split first/clen/merge covers every input']))
+
+# ---- htp_normalize_parsed_uri: port rule (C13) and order of the path pipeline (C12) ---------------------------------------------------
+UNITS.append(U(name='htp_normalize_parsed_uri', props=['C13', 'C12', 'C01'], kind='contract', src=['htp_util.c'], enforce='htp_normalize_parsed_uri',
+               replace=['bstr_dup/contract_np_bstr_dup', 'bstr_dup_lower/contract_np_bstr_dup_lower', 'htp_tx_urldecode_uri_inplace/contract_np_htp_tx_urldecode_uri_inplace',
+                        'htp_normalize_hostname_inplace/contract_np_htp_normalize_hostname_inplace', 'htp_parse_positive_integer_whitespace/contract_np_pint_ws',
+                        'htp_decode_path_inplace/contract_np_htp_decode_path_inplace', 'htp_utf8_decode_path_inplace/contract_np_htp_utf8_decode_path_inplace',
+                        'htp_utf8_validate_path/contract_np_htp_utf8_validate_path', 'htp_normalize_uri_path_inplace/contract_np_htp_normalize_uri_path_inplace'],
+               contracts_inc=['c13_norm.h'], harness='void HARNESS(void) { htp_tx_t *t; htp_uri_t *a, *b; htp_normalize_parsed_uri(t, a, b); CANARY(); }',
+               min_obl=40, objbits=12,
+               sub='port rule for EVERY int64 result of the integer parser: 1..65535 => that value, flags untouched; anything else => -1 and HTP_HOSTU_INVALID; path pipeline order decode -> utf8 (convert xor validate) -> normalise, each once, on the copy',
+               assumes=['stages, bstr copies and the integer parser replaced by contracts (the integer parser by its full result lattice; the stages by sequence-logging stubs)']))
